@@ -406,7 +406,13 @@ trivial = no record; distinct = distinct sequences of (body kind, size class, pr
     let seed = ctx.seed;
     par_cases(ctx, total, |i, obs| {
         let mut rng = Rng::derive(seed, 5, i);
-        let spec = gen_container(&mut rng, if i % 10 == 0 { max_payload } else { 4096 });
+        let mut spec = gen_container(&mut rng, if i % 10 == 0 { max_payload } else { 4096 });
+        if i % 25 == 3 {
+            // a payload larger than one bzip2 block at the smallest block size (level 1 = 100 kB):
+            // the decompressor returns short reads at block boundaries
+            let big = rng.bytes(rng.clone().urange(110_000, 260_000));
+            spec.bodies.push((Body::Compressed { payload: big, level: 1 }, rng.chance(1, 2)));
+        }
         check_container(obs, &spec, i);
         if i % 4 == 0 {
             check_chunks(obs, &mut rng, i);
